@@ -20,7 +20,7 @@ NOT_DECIDED = "HMAC itself; that one flipped bit changes tbv (follows only for o
 ASSUMPTIONS = ["FULL feature configuration (sqlite + dnssec-ring)", "Range<u64>::contains semantics"]
 
 S = 'hickory_server::store::sqlite::SqliteZoneHandler::'
-FIND = r"<Iter<'a;T> as Iterator>::find\(slice::iter\(\^arg1\.tsig_signers\),closure:SqliteZoneHandler::authorized_tsig::\{closure#0\}::\{closure#0\}\)"
+FIND = r"<Iter<'a;T> as Iterator>::find\(slice::iter\(\^arg1\.tsig_signers\),closure:SqliteZoneHandler::authorized_tsig::\{closure#0\}::\{closure@find#0\}\)"
 VMB = rf'TSigner::verify_message_byte\({FIND}@Some\.0,Request::as_slice\(\^arg3\),Option::None,true\)'
 SB = r'try\(tsig::signed_bitmessage_to_buf\(arg2,arg3,arg4\)\)@Continue\.0'
 
@@ -56,7 +56,7 @@ def run(cx):
         for s in bad:
             cx.check('C13.G2', s.term.startswith('(Result::Err(ResponseCode::NotAuth),'), f.path, s.key(), 'failure-is-NotAuth', s.term[:80], s.loc)
         cx.check('C13.G2', len(bad) == 2, f.path, 'returns', 'failure-returns', str(len(bad)))
-    c = cx.fn('C13.G2', S + 'authorized_tsig::{closure#0}::{closure#0}')
+    c = cx.fn('C13.G2', S + 'authorized_tsig::{closure#0}::{closure@find#0}')
     if c:
         t = cx.true_returns(c)
         cx.check('C13.G2', len(t) == 1 and bool(re.search(r'^eq:Name\(TSigner::signer_name\(arg2\),\^+arg2\.name\)$|^eq:Name\(\^+arg2\.name,TSigner::signer_name\(arg2\)\)$', t[0].term)),
@@ -83,7 +83,7 @@ def run(cx):
         ref = [s for s in rets if s.term.startswith('(Result::Err(ResponseCode::Refused)')]
         cx.check('C13.G3', len(ref) == 2 and len(rets) == 4, f.path, 'returns', 'refusals', f'{len(ref)} of {len(rets)}')
     U = '<hickory_server::store::sqlite::SqliteZoneHandler<P> as hickory_server::zone_handler::ZoneHandler>::'
-    f = cx.fn('C13.G3', U + 'update::{closure#0}')
+    f = cx.fn('C13.G3', U + 'update::{closure@pin#0}')
     if f:
         AU = r'await\(SqliteZoneHandler::authorize_update\(\^arg1,\^arg2,\^arg3\)\)@Ready\.0\.0'
         PR = r'await\(SqliteZoneHandler::verify_prerequisites\(\^arg1,<MessageRequest as UpdateRequest>::prerequisites\(\^arg2\)\)\)@Ready\.0'
@@ -99,11 +99,11 @@ def run(cx):
         # nothing else in update() can touch the zone
         other = [s for s in cx.calls(f, r'SqliteZoneHandler') if not re.search(r'::(authorize_update|verify_prerequisites|pre_scan|update_records)(::\{closure#0\})?$', s.label)]
         cx.check('C13.G3', not other, f.path, 'calls', 'no-other-handler-calls', '; '.join(s.label for s in other))
-    f = cx.fn('C13.G3', U + 'zone_transfer::{closure#0}')
+    f = cx.fn('C13.G3', U + 'zone_transfer::{closure@pin#0}')
     if f:
         zt = cx.calls(f, r'InMemoryZoneHandler<P> as .*ZoneHandler>::zone_transfer$')
         cx.guard('C13.G3', zt, {'policy-ok': r'^ok\(await\(SqliteZoneHandler::authorize_axfr\(\^arg1,\^arg2,\^arg4\)\)@Ready\.0\.0\)$'}, expect=1, fn=f)
-    f = cx.fn('C13.G3', U + 'search::{closure#0}')
+    f = cx.fn('C13.G3', U + 'search::{closure@pin#0}')
     if f:
         sr = cx.calls(f, r'InMemoryZoneHandler<P> as .*ZoneHandler>::search$')
         cx.guard('C13.G3', sr, {'not-AXFR': r'^!eq:RecordType\(RecordType::AXFR,LowerQuery::query_type\(Request::request_info\(\^arg2\)\.query\)\)$'}, expect=1, fn=f)
